@@ -219,6 +219,7 @@ def run_property(prop, repo="/repo", tier="quick", crates=None, meta=None, quiet
                 "source_files_hashed": (meta or {}).get("source_files_hashed"),
                 "bodies_per_package": (meta or {}).get("bodies_per_package"),
                 "functions_inspected_by_rules": len(ctx.analysed_fns),
+                "renamed_functions": {k: v for k, v in sorted((getattr(db, "renamed", None) or {}).items())},
                 "functions": sorted(short_path(k) for k in ctx.analysed_fns)[:80],
             },
             "samples": samples[:60],
